@@ -34,6 +34,10 @@ CONFIGS = {
         (7, "D", 120, "1.000000000000", "123456.750000"),
         (12, "e", 90, "641.928232294317", "146754136477.999999"),
         (3, "E", 30, "29.946923000000", "999999999999.999950"),
+        # reference phases below zero (entries before the reference epoch), also crossing zero within the file
+        (12, "e", 90, "641.928232294317", "-146750669817.214345"),
+        (3, "D", 30, "1.000000000000", "-2700.250000"),
+        (5, "E", 120, "29.946923000000", "-0.750000"),
     ],
 }
 CONFIGS["thorough"] = CONFIGS["quick"] + [
